@@ -2,7 +2,7 @@
 """Print the markdown table of /verif/seeded/*/meta.json for DESIGN.md section 11."""
 import json, glob, os, re
 rows = []
-for d in sorted(glob.glob('/verif/seeded/*/')):
+for d in sorted(glob.glob('/verif/seeded/C*/')):
     m = json.load(open(d + 'meta.json'))
     readme = open(d + 'README.md').read() if os.path.exists(d + 'README.md') else ''
     title = ''
@@ -26,4 +26,27 @@ for d in sorted(glob.glob('/verif/seeded/*/')):
     rows.append(f"| {m['property']}-{m['mutant']} | {', '.join(files)} | {title[:110]} | {'; '.join(res)} | {unit} | {note} |")
 print("| id | files changed | change (sub-agent's title) | registered quick checks | first reporting unit | note |")
 print("|----|------|------|------|------|------|")
+print("\n".join(rows))
+
+# ---- behaviour-preserving refactorings (checks must stay silent)
+rows = []
+for d in sorted(glob.glob('/verif/seeded/refactors/*/')):
+    m = json.load(open(d + 'meta.json'))
+    readme = open(d + 'README.md').read() if os.path.exists(d + 'README.md') else ''
+    title = ''
+    for l in readme.splitlines():
+        l = l.strip('# ').strip()
+        if l:
+            title = l
+            break
+    files = sorted(set(re.findall(r'^\+\+\+ b/(\S+)', open(d + 'patch.diff').read(), re.M)))
+    res = []
+    for l in m['checks_run_against_it']:
+        mm = re.match(r'(C\d+): rc=(\d+) (PASS|FAIL|MACHINERY)?', l)
+        if mm:
+            res.append(f"{mm.group(1)} {'silent' if mm.group(2)=='0' else '**ALARM**'}")
+    rows.append(f"| {m['property']}-{m['refactoring']} | {', '.join(files)} | {title[:120]} | {'; '.join(res)} | {m.get('note','')} |")
+print()
+print("| id | files changed | refactoring (sub-agent's title) | registered quick checks | note |")
+print("|----|------|------|------|------|")
 print("\n".join(rows))
